@@ -7,6 +7,7 @@ import GB.C02.WithCtx
 import GB.C02.CloseOnce
 import GB.C02.Paths
 import GB.C02.WsStall
+import GB.C02.HttpEpilogue
 /-
   C02 — every bridged call terminates promptly and releases its resources.
 
@@ -564,3 +565,65 @@ theorem C02_ws_stall_repo (stalled writer : Bool) (s : GB.WsStall.State)
   have e : C02_wsDeadlineFirst = true := by decide
   rw [e] at hr ⊢
   exact (C02_ws_stall_terminates stalled writer s hr).2.2 hn
+
+/-! ### Round 5 (f): the epilogue of the two HTTP handlers (GB/C02/HttpEpilogue.lean)
+
+  After Forward returned at most one Send helper abandoned by withCtx can still be inside `send` (by
+  `C02_withctx_one_outstanding`); the handler takes the response over with finish() and only then writes. -/
+
+/-- For every state the abandoned helper can be in when Forward returns (none / before the mutex / writing / exited),
+    in every interleaving: every step decreases `rank` (≤ 4); once the handler has taken the response over the helper
+    is not writing and never starts a write (`lateWrites = 0`: nothing is written behind the handler's back or after
+    ServeHTTP returned); and — under the environment law that a blocked response Write returns (client reads, server
+    WriteTimeout, connection gone) — an own step is enabled until the handler has returned. -/
+theorem C02_http_epilogue_terminates (w : GB.HttpEp.WPc) (s : GB.HttpEp.State)
+    (hr : GB.LTS.Reachable (GB.HttpEp.step true) (GB.HttpEp.init w) s) :
+    GB.HttpEp.rank s ≤ 4 ∧
+    (∀ l s', GB.HttpEp.step true s l = some s' → GB.HttpEp.rank s' < GB.HttpEp.rank s) ∧
+    (s.h ≠ .finish → s.w ≠ .writing) ∧ s.lateWrites = 0 ∧
+    (s.h ≠ .returned → ∃ l, GB.HttpEp.own true l = true ∧ (GB.HttpEp.step true s l).isSome = true) := by
+  have hinv : GB.HttpEp.Inv s ∧ GB.HttpEp.rank s ≤ 4 := by
+    refine GB.LTS.invariant (GB.HttpEp.step true) (GB.HttpEp.init w)
+      (fun s => GB.HttpEp.Inv s ∧ GB.HttpEp.rank s ≤ 4) ⟨GB.HttpEp.inv_init w, ?_⟩ ?_ s hr
+    · cases w <;> simp [GB.HttpEp.rank, GB.HttpEp.init, GB.HttpEp.hRank, GB.HttpEp.wRank]
+    · intro s l s' ⟨hi, hk⟩ hs
+      exact ⟨GB.HttpEp.inv_step s s' l hi hs,
+        Nat.le_trans (Nat.le_of_lt (GB.HttpEp.rank_decreases true s s' l hs)) hk⟩
+  obtain ⟨⟨h1, h2, h3⟩, hk⟩ := hinv
+  exact ⟨hk, fun l s' hs => GB.HttpEp.rank_decreases true s s' l hs, fun hne => h2 (h1 hne), h3,
+    GB.HttpEp.progress s⟩
+
+/-- Negative witnesses (kernel-checked). (1) A send that does not look at `finished` under the mutex writes after the
+    handler has taken the response over. (2) What is NOT guaranteed: while the helper's Write is blocked (client not
+    reading) the handler waits in finish(); without the environment law no own step exists — the HTTP entry points are
+    bounded only by the server's WriteTimeout / the client going away (assumption in props/C02.json, cf. D35). -/
+theorem C02_http_epilogue_negative :
+    ((GB.LTS.run (GB.HttpEp.step false) (GB.HttpEp.init .beforeLock) [.hFinish, .wLock]).map (·.lateWrites) = some 1) ∧
+    (∀ l, GB.HttpEp.own false l = true → GB.HttpEp.step true (GB.HttpEp.init .writing) l = none) := by
+  refine ⟨by decide, ?_⟩
+  intro l; cases l <;> decide
+
+/-- Facts tie (regenerated from webbridge/http.go and grpcweb.go): in both `send` functions the first response write
+    comes after `mu.Lock()` and after the `if s.finished { return }` check; both `finish` are Lock, finished = true,
+    Unlock; and in both handlers finish() comes between Forward and the handler's own write (`C02_release_on_every_path`). -/
+theorem C02_facts_http_send_order :
+    GB.Generated.httpSendOrder =
+      [("httpStream.send", ["waitRead", "Lock", "deferUnlock", "ifFinishedReturn", "Write", "Write", "Write"]),
+       ("gRPCWebStream.send", ["Lock", "deferUnlock", "ifFinishedReturn", "Write"]),
+       ("httpStream.finish", ["Lock", "setFinished", "Unlock"]),
+       ("gRPCWebStream.finish", ["Lock", "setFinished", "Unlock"])] := by
+  decide
+
+/-- the `checked` parameter of the HTTP epilogue model, from the fact -/
+def C02_httpSendChecked : Bool :=
+  (GB.Generated.httpSendOrder.filter (fun x => decide (x.1 = "httpStream.send") || decide (x.1 = "gRPCWebStream.send"))).all
+    (fun x => decide ((x.2.filter (fun t => decide (t = "Lock") || decide (t = "ifFinishedReturn") || decide (t = "Write"))).take 3
+      = ["Lock", "ifFinishedReturn", "Write"]))
+
+theorem C02_http_epilogue_repo (w : GB.HttpEp.WPc) (s : GB.HttpEp.State)
+    (hr : GB.LTS.Reachable (GB.HttpEp.step C02_httpSendChecked) (GB.HttpEp.init w) s) :
+    s.lateWrites = 0 ∧ (s.h ≠ .finish → s.w ≠ .writing) := by
+  have e : C02_httpSendChecked = true := by decide
+  rw [e] at hr
+  have := C02_http_epilogue_terminates w s hr
+  exact ⟨this.2.2.2.1, this.2.2.1⟩
